@@ -158,6 +158,9 @@ func (e *Engine) load(repo string, verifDir string, pkgs []string) error {
 		for _, d := range cf.Dropped {
 			e.dropped[d] = true
 		}
+		for _, d := range cf.Opaque {
+			e.opaque[d] = true
+		}
 		for k, v := range cf.SortSpecs {
 			e.sortSpecs[k] = v
 		}
